@@ -337,9 +337,17 @@ func runScenario(d *Driver, sc Scenario, timeout time.Duration, oracle bool, res
 			return nil, true, obs
 		}
 		// nondeterministic choices of the implementation, as observed
+		// (a touch rewrites the metadata with the token it has just read: that is not a draw)
 		var toks []string
+		lastRead := map[string]string{}
 		for _, e := range l1 {
+			if e.Op == "get" && strings.HasSuffix(string(e.Key), "-meta") && len(e.RespVal) == 40 {
+				lastRead[string(e.Key)] = string(e.RespVal[24:40])
+			}
 			if isMetaSet(e) {
+				if e.Op == "set" && lastRead[string(e.Key)] == string(e.Value[24:40]) {
+					continue
+				}
 				toks = append(toks, hx(e.Value[24:40]))
 			}
 		}
